@@ -268,6 +268,25 @@ func checkC10(c *Ctx) {
 	if res == nil || res.Violated != "AllOrNothing" {
 		Infra("Pipeline with ConsumerWaits=FALSE should refute AllOrNothing")
 	}
+	// the first pipeline (rev-list | copy-oids | cat-file --batch-check): either command may die
+	p1Cfg := func(nr, no, cap int, drop bool) string {
+		return fmt.Sprintf("SPECIFICATION Spec\nCONSTANTS\n  NRoots = %d\n  NObjs = %d\n  Cap = %d\n  DropWaitError = %s\nINVARIANTS AllOrNothing InOrder\nPROPERTY NeverHangs\nCHECK_DEADLOCK FALSE\n", nr, no, cap, tlaBool(drop))
+	}
+	p1shapes := [][3]int{{2, 3, 1}}
+	if !quick(c) {
+		p1shapes = append(p1shapes, [3]int{2, 4, 2}, [3]int{3, 3, 1}, [3]int{1, 5, 2})
+	}
+	for _, sh := range p1shapes {
+		res, err := tlcrun.Run(tlcrun.Job{Module: "Pipeline1", Cfg: p1Cfg(sh[0], sh[1], sh[2], false), Workers: 8})
+		if err != nil || !res.Completed {
+			Infra("Pipeline1 %v: %v\n%s\n%s", sh, err, res.ErrorText, res.Tail)
+		}
+		c.AddTLC(fmt.Sprintf("Pipeline1 roots=%d objs=%d cap=%d", sh[0], sh[1], sh[2]), res.Generated, res.Distinct, res.Wall, "AllOrNothing, InOrder, NeverHangs; rev-list and cat-file --batch-check may die at any point")
+	}
+	res, _ = tlcrun.Run(tlcrun.Job{Module: "Pipeline1", Cfg: p1Cfg(2, 3, 1, true), Workers: 4})
+	if res == nil || res.Violated != "AllOrNothing" {
+		Infra("Pipeline1 with DropWaitError=TRUE should refute AllOrNothing")
+	}
 
 	env := newScanEnv(c, true, false)
 	e := &c10Env{c: c, env: env, fake: buildFakeGit(c)}
